@@ -6520,8 +6520,19 @@ if (ADF_file[file_index].os_size == UNDEFINED_FORMAT)
     ADF_file[file_index].os_size = file_header->os_size;
 #endif
 #else
-assert(ADF_file[file_index].format != UNDEFINED_FORMAT);
-assert(ADF_file[file_index].os_size != UNDEFINED_FORMAT);
+	/** The format letters recorded when the file was opened select every
+	    conversion below and of the data: refuse anything but the letters
+	    this library writes (a corrupt header, or a file too short to
+	    have them) **/
+if( ((ADF_file[file_index].format != IEEE_BIG_FORMAT_CHAR) &&
+     (ADF_file[file_index].format != IEEE_LITTLE_FORMAT_CHAR) &&
+     (ADF_file[file_index].format != CRAY_FORMAT_CHAR) &&
+     (ADF_file[file_index].format != NATIVE_FORMAT_CHAR)) ||
+    ((ADF_file[file_index].os_size != OS_32_BIT) &&
+     (ADF_file[file_index].os_size != OS_64_BIT)) ) {
+   *error_return = ADF_FILE_FORMAT_NOT_RECOGNIZED ;
+   return ;
+   } /* end if */
 #endif
 
 ADFI_ASCII_Hex_2_unsigned_int( 0, 255, 2, &disk_header[106],
